@@ -433,7 +433,7 @@ Definition sample_planck (cdf logcdf logfreq : list F) (x : F) : option F :=
   end.
 
 (* Hydrogen/HeliumLymanContinuumSpectrum::get_random_frequency *)
-Definition sample_lyman (freq temp : list F) (cdfs : list (list F)) (T x : F) : option F :=
+Definition lyman_core (freq temp : list F) (cdfs : list (list F)) (T x : F) : option F :=
   match locate_in T temp with
   | None => None
   | Some iT =>
@@ -443,6 +443,12 @@ Definition sample_lyman (freq temp : list F) (cdfs : list (list F)) (T x : F) : 
     | _, _ => None
     end
   end.
+(* [clampT] = the source first does  temperature = max(temperature, _temperature[0]);
+   temperature = min(temperature, _temperature[NUMTEMP-1])  (regenerated flag gen_lyman_clamps:
+   false for the code as shipped, true once the D7 fix is in) *)
+Definition sample_lyman (clampT : bool) (freq temp : list F) (cdfs : list (list F)) (T x : F) : option F :=
+  let T' := if clampT then fmin (fmax T (at_ temp 0)) (at_ temp (length temp - 1)) else T in
+  lyman_core freq temp cdfs T' x.
 
 (* executable table conditions used by the range theorems (decided per run on the dumped tables) *)
 Fixpoint strictly_increasing (l : list F) : bool :=
